@@ -5,6 +5,7 @@ import (
 	"fmt"
 	"runtime"
 	"sync"
+	"sync/atomic"
 	"time"
 
 	"verif/harness/vgen"
@@ -36,13 +37,20 @@ type freeParams struct {
 	sdConcurrent  bool
 	sdShortCtx    bool
 	afterShutdown int // Ends issued after the first Shutdown returned
+	failEvery     int  // > 0: every n-th ExportSpans call fails (besides failPct)
+	failDeadline  bool // failures are reported as context.DeadlineExceeded
+	ignoreCtx     bool // the exporter sleeps through its latency ignoring ctx (overrunning the export timeout)
+	literalOpts   bool
+	sdViaProvider bool // the first Shutdown caller goes through TracerProvider.Shutdown
 }
 
 func (p freeParams) desc() map[string]any {
 	return map[string]any{"fragment": "free-running", "qcap": p.c.qcap, "maxBatch": p.c.maxb, "blocking": p.c.blocking,
 		"batchTimeout": p.batchTimeout.String(), "exportTimeout": p.exportTimeout.String(), "maxLatency": p.maxLatency.String(),
 		"failPct": p.failPct, "producers": p.producers, "perProducer": p.perProducer, "flushers": p.flushers,
-		"shutdownCallers": p.sdCallers, "shutdownConcurrent": p.sdConcurrent, "shutdownShortCtx": p.sdShortCtx}
+		"shutdownCallers": p.sdCallers, "shutdownConcurrent": p.sdConcurrent, "shutdownShortCtx": p.sdShortCtx,
+		"failEvery": p.failEvery, "failDeadline": p.failDeadline, "exporterIgnoresCtx": p.ignoreCtx,
+		"literalOptionFunc": p.literalOpts, "shutdownViaProvider": p.sdViaProvider}
 }
 
 func genFree(r *vgen.Rand) freeParams {
@@ -56,7 +64,7 @@ func genFree(r *vgen.Rand) freeParams {
 		p.c.maxb = r.Range(1, 12)
 	}
 	p.batchTimeout = vgen.Pick(r, []time.Duration{200 * time.Microsecond, time.Millisecond, 5 * time.Millisecond, time.Hour})
-	p.exportTimeout = vgen.Pick(r, []time.Duration{time.Hour, time.Hour, 2 * time.Millisecond, 300 * time.Microsecond})
+	p.exportTimeout = vgen.Pick(r, []time.Duration{time.Hour, time.Hour, 0, 2 * time.Millisecond, 300 * time.Microsecond})
 	p.maxLatency = vgen.Pick(r, []time.Duration{0, 100 * time.Microsecond, 100 * time.Microsecond, time.Millisecond, 3 * time.Millisecond})
 	p.failPct = vgen.Pick(r, []int{0, 0, 10, 50})
 	p.producers = r.Range(2, 16)
@@ -77,6 +85,16 @@ func genFree(r *vgen.Rand) freeParams {
 	if r.Chance(1, 3) {
 		p.afterShutdown = r.Range(1, 3)
 	}
+	if r.Chance(1, 4) {
+		p.failEvery = r.Range(2, 5)
+	}
+	p.failDeadline = r.Chance(1, 3)
+	p.ignoreCtx = r.Chance(1, 3)
+	p.literalOpts = r.Chance(1, 4)
+	// Only ONE caller may use the provider while Shutdowns overlap: a second TracerProvider.Shutdown
+	// returns nil at once (isShutdown) without waiting for the first, which is the provider's own
+	// lifecycle (C15), not the processor's.
+	p.sdViaProvider = r.Chance(1, 2)
 	return p
 }
 
@@ -101,7 +119,8 @@ func perturb(r *vgen.Rand) {
 }
 
 func runScenario(p freeParams, r *vgen.Rand) (evs []event, problem string) {
-	rg := newRig(p.c, p.batchTimeout, p.exportTimeout)
+	rg := newRigOpts(p.c, p.batchTimeout, p.exportTimeout, rigOpts{literalOpts: p.literalOpts})
+	var calls atomic.Int64
 	er := &lockedRand{r: r.Fork()}
 	rg.g.behave = func(ctx context.Context, n int) error {
 		var lat time.Duration
@@ -109,7 +128,12 @@ func runScenario(p freeParams, r *vgen.Rand) (evs []event, problem string) {
 			lat = time.Duration(er.intn(int(p.maxLatency)))
 		}
 		fail := er.intn(100) < p.failPct
-		if lat > 0 {
+		if p.failEvery > 0 && calls.Add(1)%int64(p.failEvery) == 0 {
+			fail = true
+		}
+		if lat > 0 && p.ignoreCtx {
+			time.Sleep(lat)
+		} else if lat > 0 {
 			tm := time.NewTimer(lat)
 			select {
 			case <-tm.C:
@@ -121,6 +145,9 @@ func runScenario(p freeParams, r *vgen.Rand) (evs []event, problem string) {
 			runtime.Gosched()
 		}
 		if fail {
+			if p.failDeadline {
+				return context.DeadlineExceeded
+			}
 			return errGate
 		}
 		return nil
@@ -153,7 +180,7 @@ func runScenario(p freeParams, r *vgen.Rand) (evs []event, problem string) {
 					d = time.Duration(50+fr.Intn(3000)) * time.Microsecond
 				}
 				ctx, cancel := context.WithTimeout(context.Background(), d)
-				rg.flush(ctx)
+				rg.flush(ctx, fr.Chance(1, 3))
 				cancel()
 			}
 		}()
@@ -164,6 +191,7 @@ func runScenario(p freeParams, r *vgen.Rand) (evs []event, problem string) {
 			short := p.sdShortCtx && (i == 0 || sdr.Bool())
 			delay := time.Duration(sdr.Intn(500)) * time.Microsecond
 			seq := i > 0 && sdr.Bool()
+			via := i == 0 && p.sdViaProvider
 			d := 8 * time.Second
 			if short {
 				d = time.Duration(100+sdr.Intn(2000)) * time.Microsecond
@@ -173,7 +201,7 @@ func runScenario(p freeParams, r *vgen.Rand) (evs []event, problem string) {
 				defer others.Done()
 				time.Sleep(delay)
 				ctx, cancel := context.WithTimeout(context.Background(), d)
-				rg.shutdown(ctx)
+				rg.shutdown(ctx, via)
 				cancel()
 			}
 			if seq {
